@@ -521,6 +521,76 @@ def c13_unusable(src, quick=True, timeout=300):
 
 
 # ================================================================================================
+# C06/C14: what find() reports for one statement does not depend on the statements before it
+# (two statements in a row; the first one carries what the second must not inherit: key-values,
+# a no-kvp directive, an existing reference, a target)
+# ================================================================================================
+def c06_sequences(src, quick=True, timeout=300):
+    out = []
+    dirs = directive.Directives()
+    nok = src.nokvp_text
+    firsts = [("kv", "", "k = 1; "), ("nokvp-kv", "// " + nok + "\n", "k = 1, l = 2; "), ("ref", "", "ref = 5; "),
+              ("ref-kv", "", "k = 1, ref = 5; "), ("target-kv", "", 'target: "t", k = 1; '), ("plain", "", "")]
+    seconds = [("plain", ""), ("kv", "z = 2; ")]
+    if not quick:
+        firsts += [("nokvp-ref", "/* " + nok + " */\n", "ref = 5; "), ("ignore-kv", "// " + src.ignore_text + "\n", "k = 1; ")]
+        seconds += [("target", 'target: "u", ')]
+    idx = 0
+    for structured in (True, False):
+        for fname, lead, fargs in firsts:
+            for sname, sargs in seconds:
+                idx += 1
+                if not mine(idx):
+                    continue
+                T = tmpl.Template("c06q%d" % idx)
+                T.lit(lead)
+                T.lit("info", mark="s1").lit("!(", mark="s1paren").lit(fargs).lit('"', mark="s1quote").hole("m1", 2, MSG_CHARS, mark="s1msg").lit('");\n')
+                T.lit("info", mark="s2").lit("!(", mark="s2paren").lit(sargs).lit('"', mark="s2quote").hole("m2", 2, MSG_CHARS, mark="s2msg").lit('");\n')
+                t, cons = T.build()
+                cons += tmpl.string_body_ok(t, T.marks["s1msg"], 2) + tmpl.string_body_ok(t, T.marks["s2msg"], 2)
+                fm = model.FileModel(src, t, max_kvps=4)
+                e1 = model.SymEntry(fm, T.marks["s1"], INFO, structured, dirs)
+                e2 = model.SymEntry(fm, T.marks["s2"], INFO, structured, dirs)
+                name = "c06-sequence-%s-%s-then-%s" % ("structured" if structured else "plain", fname, sname)
+                bound = "two statements in a row: `%sinfo!(%s\"..\")` then `info!(%s\"..\")`, symbolic message text" % (lead.replace("\n", "\\n"), fargs, sargs)
+                # what the second statement has to look like, whatever came before it
+                kv_tok = lambda others: src.kv_prefix_format.replace("{}", src.ref_key) + "7" + (src.kv_suffix_others if others else src.kv_suffix_alone)
+                str_tok = src.token_format.replace("{}", "7") if hasattr(src, "token_format") else None
+                positions, tokens, kinds = [], [], []
+                ignored1 = fname.startswith("ignore")
+                if not ignored1:
+                    if structured and not fname.startswith("nokvp"):
+                        if "ref" in fname:
+                            # existing reference: reported at its value, nothing to insert
+                            positions.append(T.marks["s1paren"] + 2 + fargs.index("ref = ") + len("ref = "))
+                            tokens.append(None)
+                            kinds.append("StructuredPreExisting")
+                        else:
+                            positions.append(T.marks["s1paren"] + 2 + (len('target: "t", ') if fname.startswith("target") else 0))
+                            tokens.append(kv_tok(bool(fargs.replace('target: "t", ', ""))))
+                            kinds.append("StructuredNew")
+                    else:
+                        positions.append(T.marks["s1msg"])
+                        tokens.append(None)
+                        kinds.append("String")
+                if structured:
+                    positions.append(T.marks["s2paren"] + 2 + (len('target: "u", ') if sname == "target" else 0))
+                    tokens.append(kv_tok(sname == "kv"))
+                    kinds.append("StructuredNew")
+                    good2 = And(e2.considered, e2.is_new, e2.others if sname == "kv" else Not(e2.others))
+                else:
+                    positions.append(T.marks["s2msg"])
+                    tokens.append(None)
+                    kinds.append("String")
+                    good2 = And(e2.considered, e2.is_string)
+                good1 = Not(e1.considered) if ignored1 else e1.considered
+                out.append(run_query(name, t, cons, Not(And(good1, good2)), bound, timeout,
+                                     extra={"expect": {"kind": "entries_exact", "structured": structured, "macros": INFO,
+                                                       "positions": positions, "tokens": tokens, "kinds": kinds}}))
+    return out
+
+
+# ================================================================================================
 # C06: every insertion round-trips (templated): rewrite the statement with the token breadlog
 # inserts and parse the result again
 # ================================================================================================
